@@ -28,32 +28,34 @@ LEVEL = "proof"
 MANIFEST_ENTRY = {
     "category": "proof",
     "text": "Lean 4 theorems over an executable heap-based state machine of vector.py + validate_vector_* (cells hold "
-            "references, so aliasing between cells, vectors and the caller is modelled; fancy-assignment loops that raise "
-            "half-way leave their partial effect): (1) invariant_step / invariant_all_histories / structure_all_histories: "
-            "after ANY op list every vector has unique fields, one unit per field, one cell per index of a positive shape, "
-            "and every populated cell refers to a live rectangular 2-D array with exactly one column per field; "
-            "(2) flatten_spec, writeback_identity (set_flattened(flatten()) is the identity on every state, also with "
-            "aliased cells), fieldOp_state, flatten_after_setFlattened (flatten after set_flattened xs = xs when no array "
-            "sits in two cells); (3) frame_fieldOp / frame_setFlattened: an op on X writes only to arrays that sit in X; "
-            "(4) copy_fresh (copy succeeds on every reachable state, same schema and cell values, every array and the "
-            "metadata dict newly allocated, nothing old modified), fromShape_fresh, copy_independent; add_remove_fields "
-            "(add_fields then remove_fields of the same names restores schema and cell values); (5) slice_spec / "
-            "getData_spec: for ANY number of fixed dimensions the cell of v[idx] at output coordinate o is the very "
-            "reference stored at the source coordinate the index expression assigns to o (row-major offsets on both "
-            "sides; ints, slices, lists, negative wrap, short index tuples). The model is tied to the code on every "
-            "run by a step-by-step differential run of random op histories (full state compared exactly after every "
-            "step, object identity included), and an independent pure-Python reference oracle evaluates the property "
-            "on the real class (failing-input search).",
+            "references: aliasing between cells, vectors and the caller is modelled; arrays carry exact rational values "
+            "and a dtype kind int64/float64 with NumPy's assignment cast = truncation toward zero; loops that raise "
+            "half-way keep their partial effect). (1) invariant_step / invariant_all_histories / structure_all_histories: "
+            "after ANY op list every vector has unique fields, one unit per field, one cell per index of a positive "
+            "shape, every populated cell refers to a live rectangular 2-D array with exactly one column per field, and "
+            "int64 arrays hold integers. (2) flatten_spec, writeback_identity(+_all_histories), fieldOp_state, "
+            "flatten_after_setFlattened(+_float): flatten after set_flattened returns what was written (cast per cell "
+            "dtype). (3) frame_fieldOp / frame_setFlattened. (4) copy_fresh, fromShape_fresh, copy_independent, "
+            "add_remove_fields. (5) slice_spec / getData_spec for any number of fixed dimensions. (6) value laws: "
+            "assign_spec (k-th array of the list sits, by reference, in the k-th addressed cell; everything else "
+            "untouched), fieldOp_values / fieldOp_columnwise (column j becomes f of its entries cast to the dtype, all "
+            "other columns, shape, dtype identical), fieldOp_on_slice (arithmetic through v[idx] touches exactly the "
+            "addressed cells), fieldOpGen_values (ndarray / scalar operand with broadcasting), add_fields_values, "
+            "remove_fields_values (other columns keep their values; kept columns = names not removed). (7) the "
+            "property setters are outside the statement's operation list: units_setter_preserves_invariant, "
+            "fields_setter_rename_preserves_invariant, fields_setter_counterexample, shape_setter_counterexample. The "
+            "model is tied to the code on every run by a step-by-step differential run of random op histories (full "
+            "state compared exactly after every step: values, dtype kinds, object identity), and an independent "
+            "pure-Python exact-rational reference evaluates the property on the real class (failing-input search).",
     "note": "Trusted: Lean kernel + propext/Classical.choice/Quot.sound; hand model validated by sampled correspondence "
-            "only; NumPy semantics (hstack, fancy column selection, deepcopy memo, in-place column assignment) modelled "
-            "not verified; float64 cells only (integer dtypes truncate in field arithmetic: not modelled); scalar "
-            "operands of field arithmetic; zero fixed dimensions, index tuples longer than the number of dimensions "
-            "and the shape/fields/units/name property setters are outside the model (the `fields` setter does not "
-            "check the column count — not part of the stated operation alphabet, reported). Assignment semantics "
-            "(k-th value to k-th addressed cell) is checked by correspondence and oracle, not stated as a theorem.",
+            "only; NumPy semantics (hstack promotion, fancy column selection, deepcopy memo, in-place column assignment "
+            "and its cast, broadcasting of 1-D operands, sequential indexing into a cell array) modelled not verified; "
+            "dtypes other than int64/float64, 2-D operands, and slice/list surplus indices of a single-cell assignment "
+            "into a populated cell are outside the model. The `fields`/`shape` setters can break the invariant "
+            "(counterexample theorems) but are not operations the property lists: reported, not repaired.",
     "technique": "Lean 4 proof (invariant induction over op lists on a heap model; relational specs for deepcopy / "
-                 "column rebuild; row-major bijection lemma for N-D addressing) + model-vs-implementation "
-                 "correspondence with alias fingerprints + reference-model predicate",
+                 "column rebuild / assignment loops; row-major bijection lemma for N-D addressing) + model-vs-"
+                 "implementation correspondence with alias fingerprints + exact reference-model predicate",
 }
 RULE = ("random op sequences on a world of several vectors sharing arrays; a case is one op applied to a state; "
         "distinct non-trivial = distinct (op kind, outcome, #fixed dims of target, index kinds used, value kind, "
@@ -61,10 +63,19 @@ RULE = ("random op sequences on a world of several vectors sharing arrays; a cas
 TRUSTED = ["NumPy array semantics used by vector.py (np.hstack, arr[:, idx], arr[:, j] = x, copy.deepcopy memo)",
            "float64 arithmetic is exact on the generated quarter-integer values (scale bounded by construction)"]
 ASSUMPTIONS = [
-    "only float64 cell arrays are generated (integer dtypes would truncate in field arithmetic; not modelled)",
-    "field arithmetic operands are scalars; `**=` is not exercised",
-    "shape () and index tuples longer than the number of fixed dimensions are outside the model (never generated)",
-    "the `shape` / `fields` / `units` / `name` property setters are not part of the operation alphabet",
+    "the property setters shape/fields/units are not among the operations the statement lists: they are modelled outside "
+    "the op alphabet (Props: fields_setter_counterexample, shape_setter_counterexample) and only tied to the code by a "
+    "small correspondence stream that ends a sequence; no predicate is evaluated on them",
+    "cell dtypes are int64 or float64 (other dtypes — bool, complex, object, float32 — are not generated or modelled)",
+    "field arithmetic operands: Python int/float scalars, 1-D float64 ndarrays, other field views; `**` only with the "
+    "exponents NumPy evaluates exactly (2, 1, 0, -1; 3 and negative ints on all-int64 cells; exponent arrays of 0/1/2): "
+    "candidates whose exact result (or an intermediate read again through an alias) is not float64/int64-representable, "
+    "or that divide by zero, are rejected by an exact simulation and counted in the distribution",
+    "index tuples longer than the number of fixed dimensions are modelled (they index into the cell array); the one "
+    "exception is a slice/list as surplus index of a single-cell ASSIGNMENT into a populated cell (NumPy view-vs-copy "
+    "semantics): the model answers Unsupported and it is never generated",
+    "a 2-D (or higher) ndarray operand of field arithmetic and empty index lists given as integer ndarrays in surplus "
+    "positions are not generated",
     "after an operation that raises, the real object may be partially assigned (fancy assignment loops); the model "
     "reproduces the partial assignment and the comparison continues",
 ]
@@ -1326,10 +1337,53 @@ def op_signature(w, before, op, res):
     return (k, res.get("err", "ok"), nd, kinds, vk, shared)
 
 
-def run_ops(ctx, drv, ops_iter, record):
+def setter_check(ctx, drv, w, req, done):
+    """the property setters `fields` / `units` / `shape` are NOT in the property's operation list; they are
+    modelled outside the op alphabet and tied to the code here: one setter call ends a sequence, only its
+    outcome and the resulting shape / fields / units are compared (no predicate: nothing is claimed)"""
+    v = w.vecs[req["v"]]
+    try:
+        if req["attr"] == "shape":
+            v.shape = tuple(req["value"])
+        elif req["attr"] == "fields":
+            v.fields = list(req["value"])
+        else:
+            v.units = None if req["value"] is None else list(req["value"])
+        res = {"ok": None}
+    except Exception as e:  # noqa
+        res = {"err": err_name(e)}
+    m = drv.ask(dict(req, op="set_attr"))
+    impl = {"r": res, "vec": {"shape": list(v.shape), "fields": list(v.fields), "units": list(v.units)}}
+    ctx.count()
+    ctx.dist[f"setter:{req['attr']}:{res.get('err', 'ok')}"] += 1
+    if m != json.loads(json.dumps(impl)):
+        ctx.disagree("vector-setters", {"ops": list(done), "setter": req}, m, impl, note=f"property setter {req['attr']}")
+
+
+def gen_setter(rng, w):
+    if not w.vecs:
+        return None
+    vid = rng.below(len(w.vecs))
+    v = w.vecs[vid]
+    attr = rng.choice(["fields", "units", "shape"])
+    nf = len(v.fields)
+    if attr == "fields":
+        n = rng.choice([nf, nf, max(nf - 1, 0), nf + 1])
+        val = rng.sample(NAMES, min(n, len(NAMES)))
+        if val and rng.chance(0.2):
+            val = val + [val[0]]
+    elif attr == "units":
+        val = None if rng.chance(0.15) else [rng.choice(UNITS) for _ in range(rng.choice([nf, nf, nf + 1, max(nf - 1, 0)]))]
+    else:
+        val = [rng.choice([1, 2, 3, 5, 0, -1]) for _ in range(rng.randint(0, 3))]
+    return {"v": vid, "attr": attr, "value": val}
+
+
+def run_ops(ctx, drv, ops_iter, record, setter_rng=None):
     """execute ops (an iterator that may look at the world) on the real class, the oracle and the model"""
     w = World()
     tie = Tie()
+    setter = None
     if drv is not None:
         drv.ask({"op": "reset"})
     done = []
@@ -1371,6 +1425,16 @@ def run_ops(ctx, drv, ops_iter, record):
             ctx.dist["index:" + ("int" if "i" in ix else "slice" if "s" in ix else "list")] += 1
         if any(c is not None for b in before["vecs"] for c in b["cells"]) or k in ("from_data", "setitem", "set_data"):
             ctx.mark(op_signature(w, before, op, res))
+        if k == "field_op_gen":
+            rk = "scalar" if "c" in op["rhs"] else "ndarray" if "arr" in op["rhs"] else "fieldview"
+            ctx.dist[f"field-operand:{rk}:{op['k']}:{res.get('err', 'ok')}"] += 1
+        if "v" in op and op["v"] < len(before["vecs"]):
+            pc = [c for c in before["vecs"][op["v"]]["cells"] if isinstance(c, np.ndarray)]
+            if pc and k in ("field_op", "field_op_gen", "set_flattened", "add_fields", "remove_fields", "copy"):
+                kinds = {c.dtype.kind for c in pc}
+                ctx.dist["target-dtypes:" + ("int64" if kinds == {"i"} else "float64" if kinds == {"f"} else "mixed")] += 1
+            if "idx" in op and len(op["idx"]) > len(before["vecs"][op["v"]]["shape"]):
+                ctx.dist[f"over-long-index:{k}:{res.get('err', 'ok')}"] += 1
         cont = check_op(ctx, w, before, op, res, case)
         if not cont:
             return w, done
@@ -1390,6 +1454,9 @@ def run_ops(ctx, drv, ops_iter, record):
                 return w, done
             for r in m["obs"]["heap"]:
                 ctx.stat_max("max_rows_in_cell", len(r[2]))
+    if drv is not None and w.vecs and setter_rng is not None and setter_rng.chance(0.3):
+        setter = gen_setter(setter_rng, w)
+        setter_check(ctx, drv, w, setter, done)
     if record:
         ctx.sample({"ops": done[:8], "n_ops": len(done), "final_vectors": [{"shape": list(v.shape), "fields": list(v.fields)} for v in w.vecs][:4]}, limit=3)
     return w, done
@@ -1413,7 +1480,7 @@ def run(ctx):
                     for op in g.ops():
                         n += op["op"] != "alloc"
                         yield op
-            run_ops(ctx, drv, it, record=(sidx < 3))
+            run_ops(ctx, drv, it, record=(sidx < 3), setter_rng=rng.fork(7))
     finally:
         drv.close()
 
